@@ -1532,3 +1532,20 @@ mod test {
         }
     }
 }
+
+/// Verification hook: window-edge search with a fresh cache.
+#[cfg(eigerco_lumina_verif)]
+pub async fn verif_find_height_after_window<S>(
+    store: &S,
+    stored_headers: &BlockRanges,
+    cutoff: &Time,
+    prev_after_window: Option<u64>,
+) -> std::result::Result<Option<u64>, String>
+where
+    S: Store,
+{
+    let mut cache = Cache::default();
+    find_height_after_window(store, stored_headers, cutoff, prev_after_window, &mut cache)
+        .await
+        .map_err(|e| e.to_string())
+}
